@@ -584,6 +584,7 @@ fn run_stop_controller(ctx: &Ctx) {
         let mut stack = vec![Fr { ctrl, toks: vec![], out: vec![], chunks_ok: true }];
         let mut reported = false;
         while let Some(fr) = stack.pop() {
+            crate::watchdog::beat();
             if reported {
                 break;
             }
